@@ -7,7 +7,7 @@ from vlib import fmt_list
 
 PID = 'C14'
 RULE = ('encode_str then decode_str on strings drawn from ASCII, Latin-1 supplement, C0/C1 controls, BMP and astral scalars, alone and '
-        'mixed, inside and outside Macro 05/06 envelopes; scalars with a special role (U+FEFF, non-characters, the borders of the UTF-8 lengths and of the surrogate gap, C1/Latin-1 borders, invisible characters) in every position of short strings; utf8_to_latin1 / latin1_to_utf8 on every scalar value up to U+017F plus '
+        'mixed, inside and outside Macro 05/06 envelopes; scalars with a special role (U+FEFF, non-characters, the borders of the UTF-8 lengths and of the surrogate gap, C1/Latin-1 borders, invisible characters) in every position of short strings; long printable strings (lengths around 64, 128, 192, 256) with such scalars at the start, the end, the 64-byte borders and random positions; utf8_to_latin1 / latin1_to_utf8 on every scalar value up to U+017F plus '
         'samples of the rest and on all 256 bytes; non-trivial = non-empty string')
 THEOREMS = 'C14_tables, C14_helpers, C14_inverse, C14_choice, C14_eci_header, C14_utf8_roundtrip'
 ASSUMPTIONS = ['Rust String/char modelled as scalar lists; the sort order of remove_hopeless_cases is taken from the implementation']
@@ -48,6 +48,29 @@ def gen_cases(rng, tier, ctx):
                   [c] + [0x20AC] * 3, [233, c, 233]):
             for wl in (gen.DEFAULT, gen.ALL48):
                 cs.append({'line': 'str_rt %s %s' % (fmt_list(s), fmt_list(wl)), 'cat': 'special-scalar', 's': s})
+    # long strings (around the lengths 63..65, 127..129, 255..257 and in between): printable text with zero, one or two scalars
+    # of a special role at the start, the end, a block border or anywhere; string API and helper alike
+    lengths = [31, 32, 33, 63, 64, 65, 66, 70, 100, 127, 128, 129, 130, 191, 192, 193, 255, 256, 257, 300]
+    odd = [0x7F, 0x80, 0x9F, 0xA0, 0xFF, 0x100, 0, 0x1F, 0x20AC, 0xFEFF, 0x10000]
+    for L in lengths:
+        for pool in (['ascii'], ['ascii', 'latin1']):
+            if tier == 'quick' and L > 130 and pool == ['ascii', 'latin1'] and L not in (192, 256):
+                continue
+            base = [rng.choice(POOLS[rng.choice(pool)]) for _ in range(L)]
+            variants = [list(base)]
+            for c in odd:
+                for posn in (0, L - 1, 63, 64, L // 2, rng.below(L)):
+                    if posn >= L or (tier == 'quick' and not rng.chance(1, 3)):
+                        continue
+                    v = list(base)
+                    v[posn] = c
+                    if rng.chance(1, 4):
+                        v[rng.below(L)] = rng.choice(odd)
+                    variants.append(v)
+            for v in variants:
+                cs.append({'line': 'utf8_to_latin1 %s' % fmt_list(v), 'cat': 'long-string-helper', 's': v})
+                if L <= 130 or rng.chance(1, 3):
+                    cs.append({'line': 'str_rt %s %s' % (fmt_list(v), fmt_list(gen.ALL48)), 'cat': 'long-string', 's': v})
     # helpers on their whole domains
     for c in range(0, 0x180):
         cs.append({'line': 'utf8_to_latin1 %d' % c, 'cat': 'helper', 's': [c]})
